@@ -681,6 +681,7 @@ func (e *MetaCDC) validCreateRequest(req *request.CreateRequest) error {
 			cdcwriter.DialConfigOption(milvusConnectParam.DialConfig),
 		)
 		if err != nil {
+			milvusConnectParam.Password, milvusConnectParam.Token = "", ""
 			log.Warn("fail to connect the milvus", zap.Any("connect_param", milvusConnectParam), zap.Error(err))
 			return errors.WithMessage(err, "fail to connect the milvus")
 		}
@@ -690,6 +691,7 @@ func (e *MetaCDC) validCreateRequest(req *request.CreateRequest) error {
 			cdcwriter.KafkaTopicOption(kafkaConnectParam.Topic),
 		)
 		if err != nil {
+			kafkaConnectParam.SASL.Username, kafkaConnectParam.SASL.Password = "", ""
 			log.Warn("fail to connect the kafka", zap.Any("connect_param", kafkaConnectParam), zap.Error(err))
 			return errors.WithMessage(err, "fail to connect the kafka")
 		}
